@@ -167,10 +167,12 @@ def apply_png_predictor(
         msg = "Unsupported `bitspercomponent': %d" % bitspercomponent
         raise PDFValueError(msg)
 
-    nbytes = colors * columns * bitspercomponent // 8
-    bpp = colors * bitspercomponent // 8  # number of bytes per complete pixel
+    # number of bytes per row and per complete pixel, both rounded up
+    # (PNG specification, section 6.2: bpp is at least one)
+    nbytes = (colors * columns * bitspercomponent + 7) // 8
+    bpp = (colors * bitspercomponent + 7) // 8
     buf = []
-    line_above = list(b"\x00" * columns)
+    line_above = list(b"\x00" * nbytes)
     for scanline_i in range(0, len(data), nbytes + 1):
         filter_type = data[scanline_i]
         line_encoded = data[scanline_i + 1 : scanline_i + 1 + nbytes]
